@@ -11,6 +11,8 @@ import MosnVerif.Model.Http1Framing
 import MosnVerif.Lemmas.Reencode
 import MosnVerif.Model.ReencodeSpec
 import MosnVerif.Lemmas.EncodeState
+import MosnVerif.Lemmas.H2Fwd
+import MosnVerif.Lemmas.H2Spec
 /-!
 # C01 — forwarding fidelity (property theorems only)
 
@@ -873,5 +875,233 @@ example : tries (boltCodec boltRequest) [5, 5] ([modOfOp (.set [0x6b] [0x76])].f
   decide
 
 end EncodeState
+
+
+/-! ## HTTP/2 and the cross-protocol pairings (`Model/H2Msg.lean`, decisions regenerated into `Gen/C01H2Map`)
+
+Every theorem is about `fwdReqH2 / fwdRespH2` (HTTP/2 listener → HTTP/2 cluster) or `x12Req … x21Resp` (the two pairings
+served by the httpTohttp2 / http2Tohttp transcoders): server stream decode → proxy variables / header maps → client stream
+encode, built from the regenerated decisions.  Quantifiers: every message (any pseudo values, any number of fields, any
+names and values, any repetition), every DATA framing (`w.chunks`), every flow-control schedule of the other connection
+(`win`), every trailer block, every black-box result of net/url and fasthttp (`O`). -/
+section H2
+open MosnVerif.Model.H2Msg MosnVerif.Lemmas.H2Fwd MosnVerif.Gen
+
+/-- **h2_fields_preserved** (request direction): every regular field reaches the upstream under its lower-cased name with the
+same values, the same multiplicity and the same relative order.  Exceptions, exactly: the encoder's own fields
+(`reqOwnFields` = host, content-length), the connection-specific fields (`reqConnSpecific`), user-agent (first value only),
+cookie (crumbs joined, `h2_cookie_crumbs`), the `trailer` announcement (consumed by the codec). -/
+theorem h2_fields_preserved (O : Oracles) (remote : H2Msg.Bytes) (win : List Nat) (w : Wire) (n : H2Msg.Bytes)
+    (hown : n ∉ C01H2Map.reqOwnFields) (hconn : n ∉ C01H2Map.reqConnSpecific)
+    (hua : n ≠ nUA) (hck : n ≠ nCookie) (htr : n ≠ nTrailer) (hcl : n ≠ nCL) :
+    valuesAt n (fwdReqH2 O remote win w).fields = valuesOf n w.fields :=
+  req_fields_preserved O remote win w n hown hconn hua hck htr hcl
+
+/-- **h2_fields_preserved** (response direction); exceptions: the connection-specific fields `MStream.WriteHeader` deletes
+(`respDropped`), transfer-encoding (only "trailers" is written), the `trailer` announcement, content-length
+(`h2_resp_content_length`), content-type only in so far as `respContentType` must be empty (it is: no sniffing). -/
+theorem h2_resp_fields_preserved (isHead : Bool) (win : List Nat) (w : Wire) (n : H2Msg.Bytes)
+    (hdrop : n ∉ C01H2Map.respDropped) (hte : n ≠ C01H2Map.respTEName) (htr : n ≠ nTrailer) (hcl : n ≠ nCL) (hct : n ≠ nCT) :
+    valuesAt n (fwdRespH2 isHead win w).fields = valuesOf n w.fields :=
+  resp_fields_preserved isHead win w n hdrop hte htr hcl hct
+
+set_option maxRecDepth 20000 in
+/-- repeated fields, mixed case on the way in, an empty value: three `X-Dup` values and `x-empty` arrive as sent -/
+example : valuesAt [120, 45, 100, 117, 112]
+    (fwdReqH2 ⟨fun p => some p, id, fun _ r => r, id, fun _ => none, fun _ po _ => po⟩ [] [3]
+      { pseudo := [(nMethod, [71, 69, 84]), (nPath, [47]), (nAuthority, [97])],
+        fields := [([120, 45, 100, 117, 112], [49]), ([88, 45, 68, 117, 112], []), ([120, 45, 100, 117, 112], [49])],
+        chunks := [], trailers := none, endOnHeaders := true }).fields = [[49], [], [49]] := by decide
+
+/-- **h2_cookie_crumbs** (RFC 7540 8.1.2.5): several cookie fields arrive as one, joined with "; " in order -/
+theorem h2_cookie_crumbs (O : Oracles) (remote : H2Msg.Bytes) (win : List Nat) (w : Wire) :
+    valuesAt nCookie (fwdReqH2 O remote win w).fields =
+      (if (valuesOf nCookie w.fields).length > 1 then [joinWith semiSp (valuesOf nCookie w.fields)] else valuesOf nCookie w.fields) :=
+  req_cookie_crumbs O remote win w
+
+/-- **h2_pseudo_roundtrip**: `:method`, `:path` (path and query byte for byte, an empty query's `?` included), `:authority`
+(the Host field when there is none), scheme http — for every request whose path net/url prints back unchanged. -/
+theorem h2_pseudo_roundtrip (O : Oracles) (remote : H2Msg.Bytes) (win : List Nat) (w : Wire)
+    (hesc : O.escaped (splitTarget (pseudoGet w.pseudo nPath)).1 = some (splitTarget (pseudoGet w.pseudo nPath)).1) :
+    let out := fwdReqH2 O remote win w
+    pseudoGet out.pseudo nMethod = pseudoGet w.pseudo nMethod ∧
+    pseudoGet out.pseudo nPath = pseudoGet w.pseudo nPath ∧
+    pseudoGet out.pseudo nScheme = sHTTP ∧
+    pseudoGet out.pseudo nAuthority =
+      (if pseudoGet w.pseudo nAuthority = [] then (valuesOf nHost w.fields).headD [] else pseudoGet w.pseudo nAuthority) :=
+  req_pseudo_roundtrip O remote win w hesc
+
+set_option maxRecDepth 20000 in
+/-- the hypothesis is satisfiable and the statement not vacuous: `/a?x=1` with the identity oracle -/
+example : pseudoGet (fwdReqH2 ⟨fun p => some p, id, fun _ r => r, id, fun _ => none, fun _ po _ => po⟩ [] []
+      { pseudo := [(nMethod, [71, 69, 84]), (nPath, [47, 97, 63, 120, 61, 49]), (nAuthority, [97])], fields := [],
+        chunks := [], trailers := none, endOnHeaders := true }).pseudo nPath = [47, 97, 63, 120, 61, 49] := by decide
+set_option maxRecDepth 20000 in
+/-- negation witness for the finding on paths net/url re-escapes (`/{` → `/%7B`): the oracle result is what is forwarded -/
+example : pseudoGet (fwdReqH2 ⟨fun _ => some [47, 37, 55, 66], id, fun _ r => r, id, fun _ => none, fun _ po _ => po⟩ [] []
+      { pseudo := [(nMethod, [71, 69, 84]), (nPath, [47, 123]), (nAuthority, [97])], fields := [],
+        chunks := [], trailers := none, endOnHeaders := true }).pseudo nPath = [47, 37, 55, 66] := by decide
+
+/-- the status of a forwarded response is the upstream's -/
+theorem h2_resp_status (isHead : Bool) (win : List Nat) (w : Wire) :
+    (fwdRespH2 isHead win w).pseudo = [(nStatus, pseudoGet w.pseudo nStatus)] := resp_status isHead win w
+
+/-- **h2_no_invented_field** (request): whatever the upstream receives under a name other than content-length (computed)
+and cookie (joined) was sent under that name -/
+theorem h2_no_invented_field (O : Oracles) (remote : H2Msg.Bytes) (win : List Nat) (w : Wire) (n v : H2Msg.Bytes)
+    (hcl : n ≠ nCL) (hck : n ≠ nCookie) (h : v ∈ valuesAt n (fwdReqH2 O remote win w).fields) : v ∈ valuesOf n w.fields :=
+  req_no_invented_field O remote win w n v hcl hck h
+
+/-- **h2_no_invented_field** (response): no Content-Type is sniffed (`respContentType = []`, regenerated from
+`MStream.WriteHeader`: the repair 96c7a35d0 stays covered), nothing but content-length is added by the encoder -/
+theorem h2_resp_no_invented_field (isHead : Bool) (win : List Nat) (w : Wire) (n v : H2Msg.Bytes)
+    (hcl : n ≠ nCL) (h : v ∈ valuesAt n (fwdRespH2 isHead win w).fields) : v ∈ valuesOf n w.fields :=
+  resp_no_invented_field isHead win w n v hcl h
+
+/-- the Content-Length rule of the HTTP/2 server stream (regenerated function): HEAD / 304 keep the upstream's value, 1xx /
+204 have none, an empty body that may be there gets 0 -/
+theorem h2_resp_content_length (isHead : Bool) (status : Nat) (dataEmpty upValid : Bool) (up : Option H2Msg.Bytes) :
+    C01H2Map.respContentLength isHead status bodyAllowed dataEmpty upValid up =
+      (let kept := if upValid then up.getD [] else []
+       if isHead || status == 304 then kept
+       else if !bodyAllowed status then [] else if dataEmpty then [48] else kept) :=
+  resp_content_length_rule isHead status dataEmpty upValid up
+
+/-- **h2_trailers_preserved** (request): same names up to case, values, multiplicity, order — announced or not, after any
+body **including no DATA frame at all** -/
+theorem h2_trailers_preserved (O : Oracles) (remote : H2Msg.Bytes) (win : List Nat) (w : Wire) (n : H2Msg.Bytes)
+    (hopen : w.endOnHeaders = false) :
+    valuesAt n ((fwdReqH2 O remote win w).trailers.getD []) = valuesOf n (w.trailers.getD []) :=
+  req_trailers_preserved O remote win w n hopen
+
+theorem h2_resp_trailers_preserved (win : List Nat) (w : Wire) (n : H2Msg.Bytes) (hopen : w.endOnHeaders = false) :
+    valuesAt n ((fwdRespH2 false win w).trailers.getD []) = valuesOf n (w.trailers.getD []) :=
+  resp_trailers_preserved win w n hopen
+
+set_option maxRecDepth 20000 in
+/-- trailers after an EMPTY body (no DATA frame): forwarded as a trailer block -/
+example : (fwdRespH2 false []
+      { pseudo := [(nStatus, [50, 48, 48])], fields := [], chunks := [],
+        trailers := some [([120, 45, 116], [49]), ([88, 45, 84], [50])], endOnHeaders := false }).trailers
+    = some [([120, 45, 116], [49]), ([120, 45, 116], [50])] := by decide
+
+/-- **h2_body_preserved**: the body the other side receives is the concatenation of the DATA payloads, whatever the DATA
+framing of the sender (`w.chunks`) and of the forwarder (`win`) -/
+theorem h2_body_preserved (O : Oracles) (remote : H2Msg.Bytes) (win : List Nat) (w : Wire)
+    (hwf : w.endOnHeaders = true → w.chunks = []) : (fwdReqH2 O remote win w).body = w.body :=
+  req_body_preserved O remote win w hwf
+
+theorem h2_resp_body_preserved (win : List Nat) (w : Wire) (hwf : w.endOnHeaders = true → w.chunks = []) :
+    (fwdRespH2 false win w).body = w.body := resp_body_preserved win w hwf
+
+/-- independence of the DATA framing: two framings of the same bytes are forwarded to the same body -/
+theorem h2_body_framing_independent (O : Oracles) (remote : H2Msg.Bytes) (win1 win2 : List Nat) (w1 w2 : Wire)
+    (h1 : w1.endOnHeaders = true → w1.chunks = []) (h2 : w2.endOnHeaders = true → w2.chunks = [])
+    (hb : w1.body = w2.body) : (fwdReqH2 O remote win1 w1).body = (fwdReqH2 O remote win2 w2).body := by
+  rw [req_body_preserved O remote win1 w1 h1, req_body_preserved O remote win2 w2 h2, hb]
+
+set_option maxRecDepth 20000 in
+example : (fwdReqH2 ⟨fun p => some p, id, fun _ r => r, id, fun _ => none, fun _ po _ => po⟩ [] [2, 1]
+      { pseudo := [], fields := [], chunks := [[1], [], [2, 3, 4], [5]], trailers := none, endOnHeaders := false }).chunks
+    = [[1, 2], [3], [4, 5]] := by decide
+
+/-- **cross_h1_h2_fields** (HTTP/1.1 → HTTP/2 request): every field outside the exact exception list — own fields,
+`reqConnSpecific` = connection, proxy-connection, transfer-encoding, upgrade, keep-alive (regenerated), fasthttp's
+single-valued special headers (user-agent, content-type, server), cookie (joined) — arrives with the same values,
+multiplicity and order under its lower-cased name … -/
+theorem cross_h1_h2_fields (O : Oracles) (remote : H2Msg.Bytes) (win : List Nat) (w : Wire) (n : H2Msg.Bytes)
+    (hown : n ∉ C01H2Map.reqOwnFields) (hconn : n ∉ C01H2Map.reqConnSpecific) (hsp : n ∉ special)
+    (hck : n ≠ nCookie) (hcl : n ≠ nCL) :
+    valuesAt n (x12Req O remote win w).fields = valuesOf n w.fields :=
+  x12_req_fields O remote win w n hown hconn hsp hck hcl
+
+/-- … and no connection-specific field is ever forwarded into HTTP/2, in either converted direction -/
+theorem cross_no_connection_specific_request (O : Oracles) (remote : H2Msg.Bytes) (win : List Nat) (w : Wire) (f : Field)
+    (hf : f ∈ (x12Req O remote win w).fields) : f.1 ∉ C01H2Map.reqConnSpecific :=
+  x12_req_no_connection_specific O remote win w f hf
+
+theorem cross_no_connection_specific_response (isHead : Bool) (win : List Nat) (w : Wire) (f : Field)
+    (hf : f ∈ (x21Resp isHead win w).fields) : f.1 ∉ C01H2Map.respDropped :=
+  x21_resp_no_connection_specific isHead win w f hf
+
+/-- **cross_h1_h2_fields** (HTTP/1.1 upstream → HTTP/2 downstream, response) -/
+theorem cross_h1_h2_resp_fields (isHead : Bool) (win : List Nat) (w : Wire) (n : H2Msg.Bytes)
+    (hdrop : n ∉ C01H2Map.respDropped) (hte : n ≠ C01H2Map.respTEName) (hsp : n ∉ special) (hcl : n ≠ nCL) :
+    valuesAt n (x21Resp isHead win w).fields = valuesOf n w.fields :=
+  x21_resp_fields isHead win w n hdrop hte hsp hcl
+
+/-- **cross_h1_h2_fields** (HTTP/2 → HTTP/1.1, response and request): every value of every field is copied -/
+theorem cross_h2_h1_resp_fields (w : Wire) (n : H2Msg.Bytes) (hsp : n ∉ special) (htr : n ≠ nTrailer) :
+    valuesAt n (x12Resp w).fields = valuesOf n w.fields := x12_resp_fields w n hsp htr
+
+theorem cross_h2_h1_req_fields (O : Oracles) (w : Wire) (n : H2Msg.Bytes) (hsp : n ∉ special) (htr : n ≠ nTrailer)
+    (hck : n ≠ nCookie) (hh : n ≠ nHost) : valuesAt n (x21Req O w).fields = valuesOf n w.fields :=
+  x21_req_fields O w n hsp htr hck hh
+
+set_option maxRecDepth 20000 in
+/-- repeated Set-Cookie towards HTTP/1.1 stays two fields; with a conversion through a map[string]string (the code before the
+repair, `convert false`) only the last survives -/
+example : valuesAt [115, 101, 116, 45, 99, 111, 111, 107, 105, 101]
+    (x12Resp { pseudo := [(nStatus, [50, 48, 48])],
+               fields := [([115, 101, 116, 45, 99, 111, 111, 107, 105, 101], [97]), ([115, 101, 116, 45, 99, 111, 111, 107, 105, 101], [98])],
+               chunks := [], trailers := none, endOnHeaders := true }).fields = [[97], [98]] := by decide
+set_option maxRecDepth 20000 in
+example : (convert false [([120], [[1], [2], [3]])]) = [([120], [[3]])] := by decide
+
+/-- **HTTP/1.1 → HTTP/2: method, authority, path AND query** -/
+theorem cross_h1_h2_pseudo (O : Oracles) (remote : H2Msg.Bytes) (win : List Nat) (w : Wire)
+    (hm : pseudoGet w.pseudo nMethod ≠ []) (hh : lower ((valuesOf nHost w.fields).headD []) ≠ [])
+    (hesc : O.escapedOf (x12PathUsed O (splitTarget (pseudoGet w.pseudo nPath)).1) (splitTarget (pseudoGet w.pseudo nPath)).1 =
+      (splitTarget (pseudoGet w.pseudo nPath)).1)
+    (hq : (splitTarget (pseudoGet w.pseudo nPath)).2.1 = true → (splitTarget (pseudoGet w.pseudo nPath)).2.2 ≠ []) :
+    let out := x12Req O remote win w
+    pseudoGet out.pseudo nMethod = pseudoGet w.pseudo nMethod ∧
+    pseudoGet out.pseudo nPath = pseudoGet w.pseudo nPath ∧
+    pseudoGet out.pseudo nAuthority = lower ((valuesOf nHost w.fields).headD []) :=
+  x12_req_pseudo_roundtrip O remote win w hm hh hesc hq
+
+set_option maxRecDepth 20000 in
+/-- `POST /a//b?q=1` with `Host: H`: the original path (not fasthttp's normalisation `/a/b`) and the query arrive -/
+example : pseudoGet (x12Req ⟨fun p => some p, id, fun _ r => r, fun _ => [47, 97, 47, 98], fun p => some p, fun _ po _ => po⟩ [] []
+      { pseudo := [(nMethod, [80, 79, 83, 84]), (nPath, [47, 97, 47, 47, 98, 63, 113, 61, 49])], fields := [(nHost, [72])],
+        chunks := [], trailers := none, endOnHeaders := false }).pseudo nPath = [47, 97, 47, 47, 98, 63, 113, 61, 49] := by decide
+set_option maxRecDepth 20000 in
+/-- negation witnesses of the cross-protocol findings: an empty query's `?` is dropped, trailers do not cross HTTP/1 -/
+example : pseudoGet (x12Req ⟨fun p => some p, id, fun _ r => r, id, fun p => some p, fun _ po _ => po⟩ [] []
+      { pseudo := [(nMethod, [71, 69, 84]), (nPath, [47, 97, 63])], fields := [(nHost, [72])],
+        chunks := [], trailers := none, endOnHeaders := false }).pseudo nPath = [47, 97] := by decide
+set_option maxRecDepth 20000 in
+example : (x12Req ⟨fun p => some p, id, fun _ r => r, id, fun p => some p, fun _ po _ => po⟩ [] []
+      { pseudo := [(nMethod, [80, 79, 83, 84]), (nPath, [47])], fields := [(nHost, [72])],
+        chunks := [[1]], trailers := some [([120], [49])], endOnHeaders := false }).trailers = none := by decide
+
+/-- **the model satisfies the reference predicate** evaluated on the implementation's output (`specReqH2`, HTTP/2 → HTTP/2
+request).  PARTIAL: the full statement is `specReqH2 w (fwdReqH2 O remote win w) = true`, i.e. additionally the clause `clOK`
+(a content-length at the receiver, when present, is the decimal length of the body); the model writes `natBytes n` there and
+`parseNat? (natBytes n) = some n` (Nat.repr round trip) is not proved — the clause is checked on every case line instead.
+Hypotheses: an authority, a path net/url prints back unchanged, field names outside the encoder's special ones
+(`PlainNames`: own, connection-specific, user-agent, trailer announcement — cookie crumbs, repeated names, empty values, any
+case allowed), END_STREAM on HEADERS only without DATA and trailers. -/
+theorem h2_spec_holds_on_model_partial (O : Oracles) (remote : H2Msg.Bytes) (win : List Nat) (w : Wire)
+    (hesc : O.escaped (splitTarget (pseudoGet w.pseudo nPath)).1 = some (splitTarget (pseudoGet w.pseudo nPath)).1)
+    (hauth : pseudoGet w.pseudo nAuthority ≠ [])
+    (hp : MosnVerif.Lemmas.H2Spec.PlainNames w.fields)
+    (hend : w.endOnHeaders = true → w.chunks = [] ∧ w.trailers = none) :
+    specReqH2core w (fwdReqH2 O remote win w) = true :=
+  MosnVerif.Lemmas.H2Spec.spec_holds_on_model O remote win w hesc hauth hp hend
+
+set_option maxRecDepth 20000 in
+/-- the hypotheses hold of a request with cookie crumbs, a repeated mixed-case field, a body in three DATA frames and
+trailers, and the full predicate (content-length clause included) holds of the model's output for it -/
+example : specReqH2
+    { pseudo := [(nMethod, [80, 79, 83, 84]), (nPath, [47, 97, 63, 120]), (nAuthority, [97]), (nScheme, sHTTP)],
+      fields := [(nCookie, [97, 61, 49]), ([120, 45, 100], [49]), (nCookie, [98, 61, 50]), ([88, 45, 68], [])],
+      chunks := [[1], [], [2, 3]], trailers := some [([120, 45, 116], [49])], endOnHeaders := false }
+    (fwdReqH2 ⟨fun p => some p, id, fun _ r => r, id, fun _ => none, fun _ po _ => po⟩ [] [2]
+      { pseudo := [(nMethod, [80, 79, 83, 84]), (nPath, [47, 97, 63, 120]), (nAuthority, [97]), (nScheme, sHTTP)],
+        fields := [(nCookie, [97, 61, 49]), ([120, 45, 100], [49]), (nCookie, [98, 61, 50]), ([88, 45, 68], [])],
+        chunks := [[1], [], [2, 3]], trailers := some [([120, 45, 116], [49])], endOnHeaders := false }) = true := by decide
+
+end H2
 
 end MosnVerif.Props.C01
